@@ -374,13 +374,14 @@ def run(ctx):
         code, out = outcome(CORRELATION, xin, yin, maxlags=maxlags, norm=norm)
         out = [] if out is None else np.asarray(out)
         oy = None if ykind == 'none' else (x if ykind == 'same' else y)
+        tol = 0.0 if norm is None else TOL      # raw lag sums of low-bit dyadic data are exact in binary64: compared exactly
         if ykind == 'cross':
             N, xp, yp = padded(x, y)
             rp = rms(xp) * rms(yp) if norm == 'coeff' else 1.0
-            cases.append('corr_case %s %s %s %s %s %d%%nat %d%%nat %s' % (tolq(TOL), cz(rp), czl(x), opt_list(oy), opt_nat(maxlags), NORM_ID[norm], code, czl(out)))
+            cases.append('corr_case %s %s %s %s %s %d%%nat %d%%nat %s' % (tolq(tol), cz(rp), czl(x), opt_list(oy), opt_nat(maxlags), NORM_ID[norm], code, czl(out)))
         else:
             N = len(x)
-            cases.append('acorr_case %s %s %s %s %d%%nat %d%%nat %s' % (tolq(TOL), czl(x), opt_list(oy), opt_nat(maxlags), NORM_ID[norm], code, czl(out)))
+            cases.append('acorr_case %s %s %s %s %d%%nat %d%%nat %s' % (tolq(tol), czl(x), opt_list(oy), opt_nat(maxlags), NORM_ID[norm], code, czl(out)))
         lk = ykind if ykind != 'cross' else ('equal' if len(x) == len(y) else ('x_shorter' if len(x) < len(y) else 'y_shorter'))
         meta.append(rep_of('CORRELATION', x, None if ykind == 'none' else (x if ykind == 'same' else y), xform, yform,
                            maxlags=maxlags, norm=norm, same=(ykind == 'same'), impl_outcome=code))
@@ -409,7 +410,7 @@ def run(ctx):
     ctx.extra.setdefault('exhaustive_subspaces', []).append(
         'CORRELATION: every (len x, len y) <= %d x norm x maxlags in {None, 0..N+1} (one real and one complex data set per shape)' % LMAX)
     # random, larger
-    for _ in range(ctx.q(220, 1500)):
+    for _ in range(ctx.q(220, 4000)):
         kind = (bool(rng.integers(0, 2)), bool(rng.integers(0, 2)))
         ykind = str(rng.choice(['none', 'same', 'cross', 'cross', 'cross']))
         lx = int(rng.integers(1, 13)); ly = lx if (ykind != 'cross' or rng.integers(0, 3) == 0) else int(rng.integers(1, 13))
@@ -456,7 +457,7 @@ def run(ctx):
                 add_xcorr(x, None, 'sameobj', None, norm)
                 add_xcorr(x, lowbit(rng, N + 1, cplx), 'cross', None, norm)      # unequal lengths: AssertionError
     ctx.extra['exhaustive_subspaces'].append('xcorr: every N <= %d x norm x maxlags in {None, 0..N+1}, autocorrelation and cross' % NX)
-    for _ in range(ctx.q(150, 1200)):
+    for _ in range(ctx.q(150, 3000)):
         N = int(rng.integers(1, 13)); cplx = bool(rng.integers(0, 2))
         ykind = str(rng.choice(['none', 'sameobj', 'same', 'cross', 'cross']))
         x = lowbit(rng, N, cplx, bits=int(rng.integers(1, 5)), den=int(rng.choice([1, 4, 16])))
@@ -486,7 +487,7 @@ def run(ctx):
                 for method in METHODS:
                     add_cm(x, m, method)
     ctx.extra['exhaustive_subspaces'].append('corrmtx: every N <= %d x m < N x five methods, real and complex' % NC)
-    for _ in range(ctx.q(80, 600)):
+    for _ in range(ctx.q(80, 1500)):
         N = int(rng.integers(2, 15)); m = int(rng.integers(0, N)); cplx = bool(rng.integers(0, 2))
         add_cm(lowbit(rng, N, cplx, bits=4, den=int(rng.choice([1, 8]))), m, METHODS[int(rng.integers(0, 5))], str(rng.choice(['array', 'list', 'int'])))
     for i in ctx.coq_cases('c09_corrmtx', PRE, cases, descr='corrmtx (five methods) vs Model.Corr.corrmtx at QcC: shape, every entry, entry formula'):
@@ -497,8 +498,8 @@ def run(ctx):
         for key, what in bad:
             ctx.violation(key, what, rep)
 
-    nmax = ctx.q(40, 96)
-    for it in range(ctx.q(260, 2500)):
+    nmax = ctx.q(40, 128)
+    for it in range(ctx.q(260, 8000)):
         style = str(rng.choice(['noise', 'tone', 'int', 'big']))
         cx = bool(rng.integers(0, 2)); cy = bool(rng.integers(0, 2))
         lx = int(rng.integers(1, nmax)); mode = int(rng.integers(0, 6))
